@@ -37,6 +37,9 @@ type faultScenario struct {
 	Kind  string `json:"kind"`  // a fault kind of agent.go, or: utf8 | utf8tag | duration | nil | dl-snap | dl-tick | dl-snapwait | none
 	At    int    `json:"at"`    // the peer misbehaves at its At-th data message
 	Feed  string `json:"feed"`  // points | batch
+	// Req: the peer (a rawPeer) answers its At-th request wrongly; After: what ends an unanswered request: stop | die
+	Req   *reqFault `json:"req,omitempty"`
+	After string    `json:"after,omitempty"`
 }
 
 // eventFile appends one JSON line per event, unbuffered: what was written survives the death of the process.
@@ -90,6 +93,21 @@ func faultFeed(sc faultScenario) []edge.Message {
 	return []edge.Message{p(1), p(2), p(3)}
 }
 
+func hasBadField(p edge.PointMessage) bool {
+	for _, v := range p.Fields() {
+		switch v.(type) {
+		case int64, float64, bool:
+		case string:
+			if t, _ := encVal(v); t != "string" {
+				return true
+			}
+		default:
+			return true
+		}
+	}
+	return false
+}
+
 func isPeerFault(kind string) bool {
 	for _, k := range faultKinds {
 		if k == kind {
@@ -117,6 +135,8 @@ func RunFaultChild(r *rt.Run) error {
 	ef := &eventFile{f: f}
 	if sc.Level == "task" {
 		err = faultTask(sc, ef)
+	} else if sc.Req != nil {
+		err = faultReqServer(sc, ef)
 	} else if strings.HasPrefix(sc.Kind, "dl-") {
 		err = faultDeadlock(sc, ef)
 	} else {
@@ -180,6 +200,7 @@ func faultServer(sc faultScenario, ef *eventFile) error {
 	ef.ev("Call", rt.M{"kind": "init", "data": ""})
 	err := s.srv.Init(nil)
 	ef.ev("Ret", rt.M{"kind": "init", "err": errStr(err)})
+	sent := 0
 	for _, m := range faultFeed(sc) {
 		ef.ev("Send", rt.M{"item": encMsg(m)})
 		ok, err := s.send(m, faultDeadline)
@@ -191,8 +212,177 @@ func faultServer(sc faultScenario, ef *eventFile) error {
 		if !ok {
 			break
 		}
+		// one message at a time towards the peer (the scenarios are about the fault, not about what is in flight:
+		// fewer interleavings for TLC); given up as soon as the server has aborted or the peer is gone
+		if _, bad := m.(edge.PointMessage); !bad || !hasBadField(m.(edge.PointMessage)) {
+			sent++
+		}
+		start := time.Now()
+		for s.h.seenCount() < sent && !isAborted(s) && time.Since(start) < faultDeadline {
+			time.Sleep(100 * time.Microsecond)
+		}
+	}
+	if strings.HasPrefix(sc.Kind, "unsol") {
+		// a response nobody asked for is parked in the buffer of its kind; a later call of ANOTHER kind must not see
+		// it (and one of the same kind is handed it: stale)
+		if !callSnapshot(ef, s.srv.Snapshot, 0) {
+			return nil
+		}
 	}
 	if !stopAndObserve(s, ef, true) {
+		return nil
+	}
+	diagEvent(ef, s.diag.Errors())
+	return nil
+}
+
+// callSnapshot logs Call, runs the snapshot call in a goroutine of its own (a panic there is the death of the
+// process, as in the task snapshotter goroutine) and logs Ret; false if it did not return.
+func callSnapshot(ef *eventFile, f func() ([]byte, error), pad int) bool {
+	ef.ev("Call", rt.M{"kind": "snapshot", "data": ""})
+	done := make(chan struct{})
+	go func() {
+		defer close(done)
+		b, err := f()
+		ef.ev("Ret", snapshotRet(b, err, pad))
+	}()
+	select {
+	case <-done:
+		return true
+	case <-time.After(faultDeadline):
+		ef.ev("CallHang", rt.M{"kind": "snapshot"})
+		return false
+	}
+}
+
+func snapshotRet(b []byte, err error, pad int) rt.M {
+	m := rt.M{"kind": "snapshot", "err": errStr(err)}
+	if err != nil {
+		return m
+	}
+	if string(b) == "stale" {
+		m["stale"] = true
+		return m
+	}
+	seen, restored, padok := parseSnapshot(b, pad)
+	m["seen"], m["restored"], m["padok"] = seen, restored, padok
+	return m
+}
+
+// faultReqServer: the real udf.Server against a peer that answers its At-th request (1 init, 2 snapshot,
+// 3 restore, 4 info) with the wrong kind of response / twice; a point travels between the requests.
+func faultReqServer(sc faultScenario, ef *eventFile) error {
+	ef.ev("Fault", rt.M{"kind": sc.Req.kind(), "at": sc.Req.At, "on": "req"})
+	var outMu sync.Mutex
+	nOut := 0
+	s := newSession(sessOpts{Raw: true, ReqFault: sc.Req, Pad: 32,
+		OnOut: func(m edge.Message) {
+			ef.ev("Out", rt.M{"item": encMsg(m)})
+			outMu.Lock()
+			nOut++
+			outMu.Unlock()
+		}})
+	type call struct {
+		kind string
+		data []byte
+		run  func() rt.M
+	}
+	simple := func(kind string, f func() error) func() rt.M {
+		return func() rt.M { return rt.M{"kind": kind, "err": errStr(f())} }
+	}
+	calls := []call{
+		{"init", nil, simple("init", func() error { return s.srv.Init(nil) })},
+		{"snapshot", nil, func() rt.M { b, err := s.srv.Snapshot(); return snapshotRet(b, err, 32) }},
+		{"restore", []byte("state"), simple("restore", func() error { return s.srv.Restore([]byte("state")) })},
+		{"info", nil, simple("info", func() error { _, err := s.srv.Info(); return err })},
+	}
+	var pending chan struct{}
+	await := func() bool {
+		if pending == nil {
+			return true
+		}
+		select {
+		case <-pending:
+			pending = nil
+			return true
+		case <-time.After(faultDeadline):
+			ef.ev("CallHang", nil)
+			return false
+		}
+	}
+	unanswered := false
+	feed := faultFeed(faultScenario{Feed: "points"})
+	for k, c := range calls {
+		if k > 0 {
+			m := feed[(k-1)%len(feed)]
+			ef.ev("Send", rt.M{"item": encMsg(m)})
+			ok, err := s.send(m, faultDeadline)
+			if err != nil {
+				ef.ev("SendHang", nil)
+				return nil
+			}
+			ef.ev("Sent", rt.M{"ok": ok})
+			start := time.Now()
+			for ok {
+				outMu.Lock()
+				n := nOut
+				outMu.Unlock()
+				if n >= k {
+					break
+				}
+				if time.Since(start) > faultDeadline {
+					ef.ev("OutMissing", rt.M{"want": k})
+					return nil
+				}
+				time.Sleep(200 * time.Microsecond)
+			}
+		}
+		ef.ev("Call", rt.M{"kind": c.kind, "data": fmt.Sprintf("%x", c.data)})
+		pending = make(chan struct{})
+		go func(done chan struct{}, c call) {
+			defer close(done)
+			ef.ev("Ret", c.run()) // no recover: a panic here is the death of the process
+		}(pending, c)
+		// gate: the peer has dealt with this request (its response(s), right or wrong, are on the wire)
+		start := time.Now()
+		for s.raw.handled() < k+1 {
+			if time.Since(start) > faultDeadline {
+				return fmt.Errorf("the peer did not get request %d", k+1)
+			}
+			time.Sleep(200 * time.Microsecond)
+		}
+		if sc.Req.At == k+1 && sc.Req.Name == "wrong" {
+			unanswered = true // the peer will never answer this one with its own kind
+			break
+		}
+		if !await() {
+			return nil
+		}
+	}
+	if !unanswered {
+		// one more call after everything: finds what a wrong / duplicate response left behind
+		if !callSnapshot(ef, s.srv.Snapshot, 32) {
+			return nil
+		}
+	} else if sc.After == "die" {
+		ef.ev("PeerDies", nil)
+		s.toAgent.Break()
+		s.fromAgent.Close()
+		if !await() {
+			return nil
+		}
+	}
+	if !stopAndObserve(s, ef, false) {
+		return nil
+	}
+	if !await() {
+		return nil
+	}
+	select {
+	case <-s.outClosed:
+		ef.ev("OutClosed", nil)
+	case <-time.After(faultDeadline):
+		ef.ev("OutNotClosed", nil)
 		return nil
 	}
 	diagEvent(ef, s.diag.Errors())
@@ -317,6 +507,11 @@ func faultTask(sc faultScenario, ef *eventFile) error {
 	if sc.Kind == "snap-before-open" {
 		svc.openGate = make(chan struct{})
 	}
+	if sc.Req != nil {
+		svc.reqFault = sc.Req
+		svc.pad = 32
+		ef.ev("Fault", rt.M{"kind": sc.Req.kind(), "at": sc.Req.At, "on": "req"})
+	}
 	env.TM.UDFService = svc
 	victim := "stream|from().measurement('m')|log().prefix('pre')@echo()|log().prefix('post')"
 	switch sc.Kind {
@@ -325,6 +520,10 @@ func faultTask(sc faultScenario, ef *eventFile) error {
 	case "nil":
 		victim = "var a = stream|from().measurement('m')\nvar b = stream|from().measurement('n')\n" +
 			"a|join(b).as('a','b').tolerance(1s).fill('null')|log().prefix('pre')@echo()|log().prefix('post')"
+	}
+	if sc.Req != nil {
+		// the UDF node's own first request: invoked by StartTask, seen to have returned once data comes out
+		ef.ev("Call", rt.M{"kind": "init", "data": ""})
 	}
 	et, err := env.StartTask("v", victim, kapacitor.StreamTask, rt.DefaultDBRP)
 	if err != nil {
@@ -374,9 +573,63 @@ func faultTask(sc faultScenario, ef *eventFile) error {
 		if err := env.Write("db", "rp", p); err != nil {
 			return fmt.Errorf("write: %w", err)
 		}
+		if sc.Req != nil && !diag.WaitCount("post", nm, faultDeadline) {
+			// (request-fault scenarios: one point in flight at a time - they are about the requests)
+			ef.ev("OutMissing", rt.M{"want": nm})
+			return nil
+		}
 	}
 	env.WaitIngress()
 	byOK := diag.WaitCount("by", nm, faultDeadline)
+	var snapPending chan struct{}
+	earlyStopLines := false
+	if sc.Req != nil {
+		// the path of the task snapshotter: ExecutingTask.Snapshot -> UDFNode.snapshot -> udf.Server.Snapshot on the
+		// running task, in a goroutine of its own (nothing recovers a panic there: the daemon would die).  The UDF
+		// node's first request was its Init (request 1); this snapshot is request 2.
+		if !diag.WaitCount("post", n, faultDeadline) {
+			ef.ev("OutMissing", rt.M{"want": n})
+			return nil
+		}
+		ef.ev("Ret", rt.M{"kind": "init", "err": ""})
+		ef.ev("Call", rt.M{"kind": "snapshot", "data": ""})
+		snapPending = make(chan struct{})
+		go func(done chan struct{}) {
+			defer close(done)
+			snap, err := et.Snapshot()
+			var b []byte
+			if err == nil {
+				for node, x := range snap.NodeSnapshots {
+					if strings.HasPrefix(node, "echo") {
+						b = x
+					}
+				}
+			}
+			ef.ev("Ret", snapshotRet(b, err, 32))
+		}(snapPending)
+		sock := svc.last()
+		start := time.Now()
+		for sock.raw.handled() < 2 {
+			if time.Since(start) > faultDeadline {
+				return fmt.Errorf("the peer did not get the snapshot request")
+			}
+			time.Sleep(200 * time.Microsecond)
+		}
+		if sc.Req.Name != "wrong" || sc.Req.At != 2 {
+			select {
+			case <-snapPending:
+				snapPending = nil
+			case <-time.After(faultDeadline):
+				ef.ev("CallHang", rt.M{"kind": "snapshot"})
+				return nil
+			}
+		}
+		// everything has come out of the UDF node, its input goroutine is idle: the invocation lines of the stop can
+		// (and, for the pending snapshot that only the stop ends, must) be written before StopTask is called
+		ef.ev("PumpDone", nil)
+		ef.ev("StopCall", nil)
+		earlyStopLines = true
+	}
 	done := make(chan error, 1)
 	go func() { done <- env.TM.StopTask("v") }()
 	select {
@@ -384,8 +637,10 @@ func faultTask(sc faultScenario, ef *eventFile) error {
 		// StopTask closes the source edge; the UDF node's input goroutine ends when the edge is drained and the
 		// node then closes the UDF (= Stop): both happen inside StopTask, so the two invocation lines can only be
 		// written now (late invocations are harmless: nothing observed before depends on them)
-		ef.ev("PumpDone", nil)
-		ef.ev("StopCall", nil)
+		if !earlyStopLines {
+			ef.ev("PumpDone", nil)
+			ef.ev("StopCall", nil)
+		}
 		e := errStr(err)
 		if s, ok := diag.StoppedWithError("v"); ok && s != "" && e == "" {
 			e = s
@@ -399,6 +654,14 @@ func faultTask(sc faultScenario, ef *eventFile) error {
 	case <-time.After(faultDeadline):
 		ef.ev("StopHang", rt.M{"after": faultDeadline.String()})
 		return nil
+	}
+	if snapPending != nil {
+		select {
+		case <-snapPending:
+		case <-time.After(faultDeadline):
+			ef.ev("CallHang", rt.M{"kind": "snapshot"})
+			return nil
+		}
 	}
 	env.TM.StopTask("b")
 	by := diag.SinkItems("by")
@@ -419,7 +682,7 @@ func faultTask(sc faultScenario, ef *eventFile) error {
 
 // ---- parent ----
 
-func faultScenarios(thorough bool) []faultScenario {
+func faultScenarios(thorough bool, seed int64) []faultScenario {
 	var scs []faultScenario
 	for _, k := range faultKinds {
 		ats := []int{1, 2}
@@ -448,12 +711,55 @@ func faultScenarios(thorough bool) []faultScenario {
 	for _, k := range []string{"dl-snap", "dl-tick", "dl-snapwait"} {
 		scs = append(scs, faultScenario{Level: "server", Kind: k, Feed: "points"})
 	}
+	// the peer answers a request with the wrong kind of response / twice (requests: 1 init, 2 snapshot, 3 restore, 4 info)
+	reqKinds := []string{"init", "snapshot", "restore", "info"}
+	others := []string{"info", "init", "snapshot", "restore", "keepalive"}
+	add := func(level, name, other string, at int, after string) {
+		if other == reqKinds[at-1] {
+			return // that would be the right kind
+		}
+		scs = append(scs, faultScenario{Level: level, Kind: "req", Req: &reqFault{Name: name, Other: other, At: at}, After: after})
+	}
+	for at := 1; at <= 4; at++ {
+		for oi, other := range others {
+			// quick: the snapshot request (the one the task snapshotter goroutine makes) gets every other kind as a lone
+			// wrong answer and as a wrong answer before the right one; everything else rotates with the seed.
+			// thorough: every request kind x every other kind x every variant
+			rot := (oi + at + int(seed)) % 5
+			if thorough || at == 2 || rot == 0 {
+				add("server", "wrong", other, at, "stop")
+			}
+			if thorough || rot == 1 {
+				add("server", "wrong", other, at, "die")
+			}
+			if thorough || at == 2 || rot == 2 {
+				add("server", "wrongThenRight", other, at, "")
+			}
+			if thorough || rot == 3 {
+				add("server", "rightThenWrong", other, at, "")
+			}
+		}
+		if thorough || at%2 == int(seed)%2 {
+			scs = append(scs, faultScenario{Level: "server", Kind: "req", Req: &reqFault{Name: "twice", Other: "same", At: at}})
+		}
+	}
+	// ... and below a UDF node, the snapshot coming from ExecutingTask.Snapshot on the running task
+	for _, other := range []string{"init", "restore", "info", "keepalive"} {
+		if thorough || other == "init" || other == "restore" {
+			add("task", "wrong", other, 2, "stop")
+		}
+		if thorough || other == "init" {
+			add("task", "wrongThenRight", other, 2, "")
+		}
+	}
+	add("task", "rightThenWrong", "snapshot", 1, "") // a snapshot response nobody asked for, parked before the snapshotter's first request
+	add("task", "rightThenWrong", "restore", 1, "")
 	return scs
 }
 
 // RunFault runs every scenario in a child process and assembles the trace.
 func RunFault(r *rt.Run) error {
-	scs := faultScenarios(r.Thorough())
+	scs := faultScenarios(r.Thorough(), r.Seed)
 	self, err := os.Executable()
 	if err != nil {
 		return err
@@ -509,7 +815,11 @@ func RunFault(r *rt.Run) error {
 	died := 0
 	for i, x := range results {
 		// (keys that sort after "ev": the trace tools recognise a Reset line by its first key)
-		t.Reset(rt.M{"mode": "fault", "level": scs[i].Level, "kind": scs[i].Kind, "fault_at": scs[i].At, "feed": scs[i].Feed})
+		reset := rt.M{"mode": "fault", "level": scs[i].Level, "kind": scs[i].Kind, "fault_at": scs[i].At, "feed": scs[i].Feed}
+		if scs[i].Req != nil {
+			reset["req_fault"], reset["req_at"], reset["unanswered_ends_by"] = scs[i].Req.kind(), scs[i].Req.At, scs[i].After
+		}
+		t.Reset(reset)
 		for _, ln := range x.lines {
 			var m rt.M
 			if err := json.Unmarshal([]byte(ln), &m); err != nil {
@@ -524,7 +834,11 @@ func RunFault(r *rt.Run) error {
 			died++
 			t.Event("ProcessDied", rt.M{"output": x.died})
 		}
-		t.Distinct(fmt.Sprintf("%s/%s/%d/%s", scs[i].Level, scs[i].Kind, scs[i].At, scs[i].Feed))
+		key := fmt.Sprintf("%s/%s/%d/%s", scs[i].Level, scs[i].Kind, scs[i].At, scs[i].Feed)
+		if scs[i].Req != nil {
+			key += fmt.Sprintf("/%s@%d/%s", scs[i].Req.kind(), scs[i].Req.At, scs[i].After)
+		}
+		t.Distinct(key)
 	}
 	r.Extra["fault_scenarios"] = len(scs)
 	r.Extra["fault_children_died"] = died
